@@ -33,7 +33,7 @@ ASSUMPTIONS = [
 ]
 TIERS = {
     "quick": {"shards": 16, "cases": 1600, "probes": 12, "timeout": 300},
-    "thorough": {"shards": 16, "cases": 60000, "probes": 16, "timeout": 3000},
+    "thorough": {"shards": 16, "cases": 200000, "probes": 16, "timeout": 3000},
 }
 FLOORS = {
     "quick": {"counts": {"rejections_checked": 9000, "replay_comparisons": 1500}, "keys": 250},
